@@ -536,9 +536,16 @@ func HashSetOfValueCopy(vm *Thread, target *HashSetOfValue, source *HashSetOfVal
 		if i == -1 {
 			panic("no room in target hashmap during copy")
 		}
+		old := target.table[i]
+		if old.IsUndefined() {
+			// the slot is empty
+			target.occupiedSlots++
+			target.elements++
+		} else if old == DeletedHashSetValue {
+			// zombie slot, it is already counted as occupied
+			target.elements++
+		}
 		target.table[i] = entry
-		target.occupiedSlots++
-		target.elements++
 	}
 
 	return value.Undefined
